@@ -1,0 +1,27 @@
+//go:build verif
+// +build verif
+
+package bfe_fcgi
+
+import (
+	"io"
+)
+
+import (
+	http "github.com/bfenetworks/bfe/bfe_http"
+)
+
+// Hooks for the out-of-tree verification harness of property C55 (build tag verif). Add-only.
+
+// VerifNewClient builds an FCGIClient on an arbitrary connection, exactly as Dial does after net.Dial.
+func VerifNewClient(rwc io.ReadWriteCloser) *FCGIClient {
+	return &FCGIClient{rwc: rwc, keepAlive: false, reqId: 1}
+}
+
+// VerifNewStreamReader is the reader FCGIClient.Do returns (without sending a request first).
+func VerifNewStreamReader(c *FCGIClient) io.Reader { return &streamReader{c: c} }
+
+// VerifReadResponse exposes readResponse (response assembly of Transport.RoundTrip).
+func VerifReadResponse(r io.Reader, req *http.Request) (*http.Response, error) {
+	return readResponse(r, req)
+}
